@@ -97,7 +97,10 @@ class SpecArray(object):
         if self._dd is not None:
             return self._dd
         if self.dir is not None and len(self.dir) > 1:
-            self._dd = abs(float(self.dir[1] - self.dir[0]))
+            # Use sorted directions so the bin width does not depend on where the
+            # stored sequence starts (e.g., [330, 0, 30, ...] has a 30 deg width)
+            dirs = np.sort(self.dir.values)
+            self._dd = abs(float(dirs[1] - dirs[0]))
         else:
             self._dd = 1.0
         return self._dd
